@@ -9,16 +9,21 @@ import (
 	"go/token"
 	"go/types"
 	"sync"
+	"sync/atomic"
 
 	"golang.org/x/tools/go/ssa"
 )
 
 type fnInfo struct {
-	idx  map[ssa.Value]int
-	nreg int
+	idx    map[ssa.Value]int
+	nreg   int
+	name   string
+	record bool
 }
 
 var fnInfoCache sync.Map // *ssa.Function -> *fnInfo
+
+var constCounter atomic.Int64 // global numbering of *ssa.Const operands
 
 func getFnInfo(fn *ssa.Function) *fnInfo {
 	if v, ok := fnInfoCache.Load(fn); ok {
@@ -43,6 +48,24 @@ func getFnInfo(fn *ssa.Function) *fnInfo {
 		}
 	}
 	fi.nreg = n
+	var rands []*ssa.Value
+	for _, b := range fn.Blocks {
+		for _, in := range b.Instrs {
+			rands = in.Operands(rands[:0])
+			for _, op := range rands {
+				if op == nil || *op == nil {
+					continue
+				}
+				if k, ok := (*op).(*ssa.Const); ok {
+					if _, seen := fi.idx[k]; !seen {
+						fi.idx[k] = -int(constCounter.Add(1))
+					}
+				}
+			}
+		}
+	}
+	fi.name = fn.String()
+	fi.record = fn.Pkg != nil || fn.Origin() != nil || fn.Parent() != nil || fn.Synthetic != ""
 	fnInfoCache.Store(fn, fi)
 	return fi
 }
@@ -84,6 +107,12 @@ type Goroutine struct {
 }
 
 func (r *Run) get(fr *Frame, v ssa.Value) Value {
+	if i, ok := fr.info.idx[v]; ok {
+		if i >= 0 {
+			return fr.regs[i]
+		}
+		return r.wk.constVal(r, -i, v.(*ssa.Const))
+	}
 	switch x := v.(type) {
 	case *ssa.Const:
 		return r.constVal(x)
@@ -94,11 +123,40 @@ func (r *Run) get(fr *Frame, v ssa.Value) Value {
 	case *ssa.Builtin:
 		return &FuncV{intr: "builtin:" + x.Name()}
 	}
-	i, ok := fr.info.idx[v]
-	if !ok {
-		panic(engineErr("get: unknown value %s (%T) in %s", v.Name(), v, fr.fn))
+	panic(engineErr("get: unknown value %s (%T) in %s", v.Name(), v, fr.fn))
+}
+
+// Worker holds what is reused from path to path by one exploration worker.
+type Worker struct {
+	solver    *Solver
+	ctx       *Ctx
+	gen       uint32
+	constVals []Value
+	constGen  []uint32
+	regPool   map[int][][]Value
+	funcs     map[*ssa.Function]bool
+	intr      map[string]bool
+}
+
+func (w *Worker) constVal(r *Run, id int, k *ssa.Const) Value {
+	if id >= len(w.constVals) {
+		n := int(constCounter.Load()) + 1024
+		nv := make([]Value, n)
+		ng := make([]uint32, n)
+		copy(nv, w.constVals)
+		copy(ng, w.constGen)
+		w.constVals, w.constGen = nv, ng
 	}
-	return fr.regs[i]
+	if w.constGen[id] == w.gen {
+		return w.constVals[id]
+	}
+	v := r.constVal(k)
+	switch v.(type) {
+	case *Term, *StrV, FloatV:
+		w.constVals[id] = v
+		w.constGen[id] = w.gen
+	}
+	return v
 }
 
 func (r *Run) set(fr *Frame, v ssa.Value, val Value) {
@@ -190,7 +248,15 @@ func (r *Run) pushFrame(g *Goroutine, fv *FuncV, args []Value, retTo func(Value)
 		panic(engineErr("call depth exceeded in %s", fn.String()))
 	}
 	fi := getFnInfo(fn)
-	fr := &Frame{fn: fn, info: fi, regs: make([]Value, fi.nreg), block: fn.Blocks[0], retTo: retTo}
+	var regs []Value
+	if pool := r.wk.regPool[fi.nreg]; len(pool) > 0 {
+		regs = pool[len(pool)-1]
+		r.wk.regPool[fi.nreg] = pool[:len(pool)-1]
+		clear(regs)
+	} else {
+		regs = make([]Value, fi.nreg)
+	}
+	fr := &Frame{fn: fn, info: fi, regs: regs, block: fn.Blocks[0], retTo: retTo}
 	if len(args) != len(fn.Params) {
 		panic(engineErr("call %s: %d args for %d params", fn, len(args), len(fn.Params)))
 	}
@@ -201,10 +267,8 @@ func (r *Run) pushFrame(g *Goroutine, fv *FuncV, args []Value, retTo func(Value)
 		fr.regs[fi.idx[p]] = fv.env[i]
 	}
 	g.stack = append(g.stack, fr)
-	if fn.Pkg != nil {
-		r.res.Funcs[fn.String()] = true
-	} else if fn.Origin() != nil || fn.Parent() != nil || fn.Synthetic != "" {
-		r.res.Funcs[fn.String()] = true
+	if fi.record && !r.inInit {
+		r.wk.funcs[fn] = true
 	}
 	return fr
 }
@@ -247,9 +311,17 @@ func (r *Run) invoke(g *Goroutine, fv *FuncV, args []Value, retTo func(Value)) {
 		}
 		return
 	}
-	name := fv.fn.String()
-	if h, ok := r.eng.intrinsics[name]; ok {
-		r.res.Intrinsics[name] = true
+	r.eng.intrMu.RLock()
+	h, ok := r.eng.intrByFn[fv.fn]
+	r.eng.intrMu.RUnlock()
+	if !ok {
+		h = r.eng.intrinsics[fv.fn.String()]
+		r.eng.intrMu.Lock()
+		r.eng.intrByFn[fv.fn] = h
+		r.eng.intrMu.Unlock()
+	}
+	if h != nil {
+		r.wk.intr[getFnInfo2(fv.fn)] = true
 		res, handled := h(r, g, fv, args, retTo)
 		if handled {
 			if retTo != nil && res != (deferredResult{}) {
@@ -260,6 +332,17 @@ func (r *Run) invoke(g *Goroutine, fv *FuncV, args []Value, retTo func(Value)) {
 	}
 	r.pushFrame(g, fv, args, retTo)
 }
+
+func getFnInfo2(fn *ssa.Function) string {
+	if v, ok := fnNameCache.Load(fn); ok {
+		return v.(string)
+	}
+	n := fn.String()
+	fnNameCache.Store(fn, n)
+	return n
+}
+
+var fnNameCache sync.Map
 
 // deferredResult is returned by intrinsics that arrange for retTo to be
 // called later themselves (blocking operations, callbacks).
@@ -445,6 +528,10 @@ func (r *Run) invokeDeferred(g *Goroutine, d deferRec, owner *Frame) {
 
 func (r *Run) returnFrom(g *Goroutine, fr *Frame, res Value) {
 	g.stack = g.stack[:len(g.stack)-1]
+	if len(fr.defers) == 0 && !fr.unwinding {
+		r.wk.regPool[fr.info.nreg] = append(r.wk.regPool[fr.info.nreg], fr.regs)
+		fr.regs = nil
+	}
 	if fr.retTo != nil {
 		fr.retTo(res)
 	}
@@ -739,7 +826,7 @@ func (r *Run) execTypeAssert(fr *Frame, x *ssa.TypeAssert) {
 	}
 	if x.CommaOk {
 		if !ok {
-			res = r.zero(x.AssertedType)
+			res = r.zeroShared(x.AssertedType)
 		}
 		r.set(fr, x, TupleV{res, r.ctx.Bool(ok)})
 		return
@@ -752,6 +839,17 @@ func (r *Run) execTypeAssert(fr *Frame, x *ssa.TypeAssert) {
 		panic(goPanic{kind: "assert", msg: fmt.Sprintf("interface conversion: interface is %s, not %s", dyn, x.AssertedType)})
 	}
 	r.set(fr, x, res)
+}
+
+// zeroShared returns a zero value that must only live in registers (values in
+// registers are never mutated; stores copy).
+func (r *Run) zeroShared(t types.Type) Value {
+	if v, ok := r.zeroCache[t]; ok {
+		return v
+	}
+	v := r.zero(t)
+	r.zeroCache[t] = v
+	return v
 }
 
 // concreteInt requires a concrete integer value.
